@@ -398,6 +398,7 @@ func run(c *harness.Ctx, i int) {
 					us.Close()
 				}
 				os.Unsetenv("SHIM_SFTP_FAULT")
+				before = b.list() // what the upload left is there before prune runs
 			}
 			defer func() {
 				if interrupted == "" || err != nil {
